@@ -5,6 +5,7 @@ package piece
 import (
 	"github.com/jech/storrent/alloc"
 	"github.com/jech/storrent/hash"
+	"github.com/jech/storrent/mono"
 )
 
 var vOpNames = []string{"op0", "op1", "op2", "op3"}
@@ -206,4 +207,64 @@ func H_C03_alloc() {
 	ps.AddData(index, 0, data, 7)
 	ps.Del()
 	vAssert(alloc.Bytes() == base, "deleting the torrent gives back exactly what it took")
+}
+
+var vTimeNames = []string{"tm0", "tm1", "tm2"}
+var vDoneNames = []string{"done0", "done1", "done2"}
+
+// H_C03_expire: one per-torrent eviction pass over a 3-piece store in which any subset of pieces
+// holds data (complete or not) with ARBITRARY access times, to an arbitrary byte target: afterwards
+// the store is at or below the target or holds nothing; every complete piece dropped - and nothing
+// else - is reported; and eviction is least-recently-used first: a piece that was dropped was not
+// accessed more recently than one that was kept (all accessed within the last two hours).
+func H_C03_expire() {
+	ps := &Pieces{}
+	ps.MetadataComplete(16384, 3*16384)
+	base := alloc.Bytes()
+	h := hash.Hash(vBytes("h", 20))
+	vAssume(len(h) == 20)
+	now := mono.Now()
+	var held, complete [3]bool
+	var tm [3]mono.Time
+	for i := 0; i < 3; i++ {
+		if vParam("hold")&(1<<uint(i)) != 0 {
+			d := vBytes([]string{"d0", "d1", "d2"}[i], 16384)
+			vAssume(len(d) == 16384)
+			ps.AddData(uint32(i), 0, d, 1)
+			held[i] = true
+			if vBool(vDoneNames[i]) {
+				done, _, _ := ps.Finalise(uint32(i), h)
+				vAssume(done)
+				complete[i] = true
+			}
+		}
+		tm[i] = mono.Time(vU32(vTimeNames[i]))
+		vAssume(tm[i] <= now && now.Sub(tm[i]) < 7200)
+		ps.pieces[i].SetTime(tm[i])
+	}
+	target := vI64("target")
+	vAssume(target >= -(1<<40) && target <= 1<<40)
+	var reported [3]int
+	n := ps.Expire(target, nil, func(index uint32) { reported[index]++ })
+	vReach("expired")
+	left := 0
+	for i := 0; i < 3; i++ {
+		dropped := held[i] && len(ps.pieces[i].data) == 0
+		if len(ps.pieces[i].data) > 0 {
+			left++
+			vAssert(held[i], "eviction creates nothing")
+		}
+		vAssert(reported[i] == vIte(dropped && complete[i], 1, 0), "exactly the complete pieces that were dropped are reported, once")
+		for j := 0; j < 3; j++ {
+			keptJ := held[j] && len(ps.pieces[j].data) > 0
+			vAssert(vImp(vAnd(dropped, keptJ), tm[i] <= tm[j]), "least recently accessed first: a dropped piece is not younger than a kept one")
+		}
+	}
+	t := target
+	if t < 0 {
+		t = 0
+	}
+	vAssert(int64(left)*16384 <= t || left == 0, "the pass reaches the target or empties the store")
+	vAssert(alloc.Bytes() == base+int64(left)*16384, "accounting follows")
+	_ = n
 }
